@@ -654,6 +654,79 @@ def m_fold(px, st, fr, ev):
     ]
 
 
+def m_try_fold(px, st, fr, ev):
+    """Iterator::try_fold(init, f): summarised like fold; a step whose result is the residual (None / Err / Break) ends the
+    whole try_fold with that residual, a step with a continue value is one turn.  NOT installed by default (it multiplies the
+    paths of the caller): rules that read a try_fold's transition pass it as an extra model."""
+    if len(ev["args"]) != 3:
+        return None
+    it, init, f = ev["args"]
+    body = closure_body(f)
+    if body is None or body not in px.facts.bodies:
+        return None
+    rty = ev["dest"]["ty"].get("s", "")
+    if rty.startswith("std::option::Option<"):
+        good, bad, mk = "Some", "None", some
+    elif rty.startswith("std::result::Result<"):
+        good, bad, mk = "Ok", "Err", ok
+    elif rty.startswith("std::ops::ControlFlow<"):
+        good, bad, mk = "Continue", "Break", (lambda v: agg("adt", "std::ops::ControlFlow", "Continue", (("0", v),)))
+    else:
+        return None
+    info = fr.info
+    header = ("fold", fr.bb)
+    sig = px.chain_sig(st)
+    key = ("F", 0, ())
+    acc = ("loopvar", info.name, header, key, 0) + ((sig,) if sig else ())
+    TY.setdefault(acc, (64, False))
+    item = ("fold_item", info.name, fr.bb, sig)
+    itv = px._read(st, it[1], it[2]) if isinstance(it, tuple) and it and it[0] == "ref" else it
+
+    def do(s):
+        lev = s.extra.setdefault("loop_entry_values", {})
+        lev[(info.name, header, key)] = init
+        lev[(info.name, header, ("I", 0, ()))] = itv
+        if isinstance(it, tuple) and it and it[0] == "ref" and it[3]:
+            px._write(s, it[1], it[2], ("havoc", ("call", "std::iter::Iterator::try_fold", (("&", itv),), ev["uid"]), 0))
+        px.emit(s, {"k": "loop_enter", "fn": info.name, "bb": header, "sig": sig})
+    return [
+        {"label": "fold-exit", "value": mk(acc), "do": do},
+        {"label": "fold-step", "inline": body, "args": call_args(f, [acc, item]), "end_as": (info.name, header),
+         "end_try": (good, bad), "do": do},
+    ]
+
+
+TRY_FOLD = {"std::iter::Iterator::try_fold": m_try_fold}
+
+
+@model("core::num::<impl u64>::checked_mul", "core::num::<impl usize>::checked_mul", "core::num::<impl u32>::checked_mul",
+       reason="checked_mul: None iff the exact product exceeds MAX, else Some(a*b)")
+def m_checked_mul(px, st, fr, ev):
+    a, b = ev["args"]
+    mx = uint_max(ev["callee"]["path"])
+    s = mk_binop("Mul", a, b)
+    if is_const(s):
+        return val(some(s) if s[1] <= mx else NONE)
+    ovf = ("ovf", "Mul", a, b)
+    TY.setdefault(s, (64, False))
+    return [
+        {"label": "no-overflow", "value": some(s),
+         "assume": (lambda c: c.set_known(ovf, 0) and (c.rel.append(("Le", s, const(mx))) or True))},
+        {"label": "overflow", "value": NONE, "assume": (lambda c: c.set_known(ovf, 1))},
+    ]
+
+
+def _m_widen(px, st, fr, ev):
+    return val(ev["args"][0])
+
+
+for _src, _dsts in (("u8", ("u16", "u32", "u64", "usize", "u128")), ("u16", ("u32", "u64", "usize", "u128")), ("u32", ("u64", "u128")),
+                    ("u64", ("u128",)), ("bool", ("u8", "u16", "u32", "u64", "usize"))):
+    for _d in _dsts:
+        model("std::convert::num::<impl std::convert::From<%s> for %s>::from" % (_src, _d),
+              reason="From between unsigned integer types that cannot lose bits: the value itself")(_m_widen)
+
+
 @model("std::ops::Try::branch", reason="`?`: Ok/Some -> Continue(payload); Err/None -> Break(residual)")
 def m_try_branch(px, st, fr, ev):
     t = ev["args"][0]
